@@ -74,6 +74,109 @@ def make_data(kind: str, data: bytes):
     raise ValueError(kind)
 
 
+class env_ctx:
+    """TMUX / TERM for the duration of a detect_tmux() call"""
+
+    def __init__(self, tmux, term):
+        self.set = {"TMUX": tmux, "TERM": term}
+
+    def __enter__(self):
+        self.old = {k: os.environ.get(k) for k in self.set}
+        for k, v in self.set.items():
+            if v is None:
+                os.environ.pop(k, None)
+            else:
+                os.environ[k] = v
+
+    def __exit__(self, *a):
+        for k, v in self.old.items():
+            if v is None:
+                os.environ.pop(k, None)
+            else:
+                os.environ[k] = v
+
+
+def _optb(v):
+    return "_" if v is None else hx(v.encode())
+
+
+# A terminal history: GraphicsTerminal(num_tmux_layers=c["layers"], max_command_size=c["max"]) followed by c["term"]["steps"]:
+#   {"how": "clone", "args": {...clone_with keyword arguments...}}   a new object derived from the newest one
+#   {"how": "assign_max", "v": x} / {"how": "assign_layers", "v": k} / {"how": "detect", "tmux": .., "term": ..}   on the newest one
+# The command is sent through object number c["term"]["send_on"] (default: the newest; 0 = the constructed one).
+def intended_cfg(d, c):
+    """(layers, limit) the CALLER configured on the object the command is sent through.  Not read back from the object:
+    clone_with takes over everything it is not told to change; an explicit layer count (0 included) is that count;
+    detection gives max(1, configured) layers exactly when the rule of C11's statement holds, else 0."""
+    term = c.get("term") or {}
+    objs = [[c["layers"], c["max"]]]
+    for st in term.get("steps", []):
+        cur = objs[-1]
+        how = st["how"]
+        if how == "clone":
+            new = list(cur)
+            if st["args"].get("num_tmux_layers") is not None:
+                new[0] = st["args"]["num_tmux_layers"]
+            objs.append(new)
+        elif how == "assign_max":
+            cur[1] = st["v"]
+        elif how == "assign_layers":
+            cur[0] = st["v"]
+        elif how == "detect":
+            cur[0] = max(1, cur[0]) if d.ask(f"spec_detect {_optb(st['tmux'])} {_optb(st['term'])}") == "1" else 0
+        else:
+            raise ValueError(how)
+    return tuple(objs[term.get("send_on", -1)])
+
+
+def cfg_tokens(c):
+    """the history of the object sent through, for the model (`termcfg` / `termsend` requests of drv_cmd)"""
+    term = c.get("term") or {}
+    steps = term.get("steps", [])
+    nclones = sum(1 for st in steps if st["how"] == "clone")
+    idx = term.get("send_on", -1)
+    idx = idx if idx >= 0 else nclones + 1 + idx
+    out = [str(c["layers"]), "none" if c["max"] is None else str(c["max"])]
+    seen = 0
+    for st in steps:
+        if st["how"] == "clone":
+            if seen == idx:
+                break
+            seen += 1
+            k = st["args"].get("num_tmux_layers")
+            out.append("clone:" + ("_" if k is None else str(k)))
+        elif st["how"] == "assign_max":
+            out.append("amax:" + ("none" if st["v"] is None else str(st["v"])))
+        elif st["how"] == "assign_layers":
+            out.append("alayers:%d" % st["v"])
+        elif st["how"] == "detect":
+            out.append(f"detect:{_optb(st['tmux'])}:{_optb(st['term'])}")
+    return " ".join(out)
+
+
+def real_terminal(c, out):
+    """The real object the command is sent through."""
+    from tupimage import graphics_terminal as gt
+    term = c.get("term") or {}
+    objs = [gt.GraphicsTerminal(out_command=out, out_display=io.BytesIO(), in_response=io.BytesIO(), in_userinput=io.BytesIO(),
+                                max_command_size=c["max"], num_tmux_layers=c["layers"])]
+    for st in term.get("steps", []):
+        cur = objs[-1]
+        how = st["how"]
+        if how == "clone":
+            objs.append(cur.clone_with(**st["args"]))
+        elif how == "assign_max":
+            cur.max_command_size = st["v"]
+        elif how == "assign_layers":
+            cur.num_tmux_layers = st["v"]
+        elif how == "detect":
+            with env_ctx(st["tmux"], st["term"]):
+                cur.detect_tmux()
+        else:
+            raise ValueError(how)
+    return objs[term.get("send_on", -1)]
+
+
 def run_send(c: dict):
     """Runs the real code for a 'send' case. Returns (raised, stream bytes, callback escapes, writes)."""
     gc = gcmod()
@@ -86,12 +189,12 @@ def run_send(c: dict):
     raised = False
     cb = []
     run_send.unexpected = None
+    run_send.cfg = None
     try:
         if c.get("via", "send") == "terminal":
-            from tupimage import graphics_terminal as gt
             out = Rec()
-            term = gt.GraphicsTerminal(out_command=out, out_display=io.BytesIO(), in_response=io.BytesIO(),
-                                       in_userinput=io.BytesIO(), max_command_size=c["max"], num_tmux_layers=n)
+            term = real_terminal(c, out)
+            run_send.cfg = (term.num_tmux_layers, term.max_command_size)
             try:
                 term.send_command(obj)
             except ValueError:
@@ -125,15 +228,27 @@ def check_case(ctx: Ctx, c: dict):
     ctx.count("kind:" + k)
     if k == "send":
         desc = c["cmd"]
-        n = c["layers"]
         data = data_bytes(desc.get("data"))
         tok = tokens(desc, data)
-        mx = "none" if c["max"] is None else str(c["max"])
+        # the configuration the claim is about: what the caller configured on the object the command goes through
+        n, mxv = intended_cfg(d, c) if c.get("via") == "terminal" else (c["layers"], c["max"])
+        mx = "none" if mxv is None else str(mxv)
         raised, stream, cb, writes, tmpl = run_send(c)
-        model = d.ask(f"send {n} {mx} {tok}")
+        if c.get("via") == "terminal":
+            model = d.ask(f"termsend {cfg_tokens(c)} | {tok}")
+            mcfg = d.ask(f"termcfg {cfg_tokens(c)}")
+            ctx.eq("num_tmux_layers / max_command_size of the terminal object sent through", c,
+                   "%s %s" % (run_send.cfg[0], "none" if run_send.cfg[1] is None else run_send.cfg[1]), mcfg)
+            if mcfg != f"{n} {mx}":      # the model of the code and the reading of the caller's configuration must not drift apart
+                ctx.mismatch("model terminal configuration vs configured values", c, mcfg, f"{n} {mx}")
+            for st in (c.get("term") or {}).get("steps", []):
+                ctx.count("term-step:" + st["how"] + (":" + ",".join(sorted(k for k, v in st["args"].items() if v is not None)) if st["how"] == "clone" else ""))
+            ctx.count("term-limit:" + ("default" if mxv is None else "<4096" if mxv < 4096 else "=4096" if mxv == 4096 else ">4096"))
+        else:
+            model = d.ask(f"send {n} {mx} {tok}")
         if run_send.unexpected:
             ctx.mismatch("send raised something other than ValueError", c, run_send.unexpected, model[:40])
-        ctx.eq("template", {"k": "template", "layers": n}, hx(tmpl), d.ask(f"template {n}"))
+        ctx.eq("template", {"k": "template", "layers": c["layers"]}, hx(tmpl), d.ask(f"template {c['layers']}"))
         if model == "err":
             ctx.eq("send raises ValueError", c, raised, True)
             ctx.eq("bytes written before the error", c, hx(stream), "-")
@@ -149,18 +264,20 @@ def check_case(ctx: Ctx, c: dict):
         inline = is_inline(desc)
         ctx.count("medium:" + str((desc.get("f") or {}).get("medium")))
         ctx.count("layers:%d" % n)
+        ctx.count("limit:" + ("default" if mxv is None else "<4096" if mxv < 4096 else "4096-5499" if mxv < 5500 else "5500-9999" if mxv < 10000 else "10000+"))
         ctx.count("stream:" + c.get("stream", "bytes"))
         ctx.count("via:" + c.get("via", "send"))
         ctx.count("more:" + str((desc.get("f") or {}).get("more")))
         ctx.count("outcome:" + ("error" if model == "err" else "chunks=%s" % (nchunks if nchunks < 4 else "4+")))
-        ctx.count("payload-len:" + ("0" if not data else "1-9" if len(data) < 10 else "10-99" if len(data) < 100 else "100-999" if len(data) < 1000 else "1000+"))
+        ctx.count("payload-len:" + ("0" if not data else "1-9" if len(data) < 10 else "10-99" if len(data) < 100 else "100-999" if len(data) < 1000 else "1000-4096" if len(data) <= 4096 else "4097-19999" if len(data) < 20000 else "20000+"))
         ctx.last_nchunks = nchunks
         # F
         if inline:
             r = d.ask(f"spec_checksend {n} {mx} {1 if raised else 0} {hx(stream)} {tok}")
             if r != "ok":
                 ctx.violation("inline transmission breaks the chunking property: " + r, c,
-                              {"reason": r, "max": c["max"], "escape_sizes": _sizes(d, stream), "data_len": len(data)}, key="c05-" + r)
+                              {"reason": r, "configured_max": mxv, "configured_layers": n, "escape_sizes": _sizes(d, stream),
+                               "data_len": len(data)}, key="c05-" + r)
         else:
             # other media: a single unsplit command (only C06's well-formedness applies)
             if raised:
@@ -285,6 +402,81 @@ def cases(ctx: Ctx):
         desc["data"] = {"len": L, "pat": rng.choice(pats), "seed": rng.randrange(1000)}
         yield {"k": "send", "cmd": desc, "layers": n, "max": mx, "stream": rng.choice(streams) if rng.random() < 0.3 else "bytes",
                "via": "terminal" if rng.random() < 0.2 else "send", "callback": rng.random() < 0.7}
+    # (7) the claim THROUGH terminal objects: constructed, clone_with-derived (each keyword argument, None / False / True / a layer
+    #     count incl. 0), clones of clones, limit or layer count assigned before / after cloning, detect_tmux(), the original after
+    #     it was cloned; limits below, at and above 4096 and too small ones; judged against the CONFIGURED limit and layers
+    d = ctx.driver("drv_cmd")
+    LIMITS = [0, 20, 40, 60, 80, 100, 150, 257, 1000, 3000, 4095, 4096, 4097, 5000, 6000, 9000, None]
+    ENVS = [(None, "xterm"), ("/tmp/tmux-0/default,1,0", "tmux-256color"), ("/t,1,0", "screen"), ("", "tmux"), ("x", "linux")]
+
+    def clone_args(f, layers=None):
+        pl = f.get("placement")
+        safe_fp = pl is None or pl.get("virtual") is True           # force_placeholders=True would rewrite other commands
+        a = {}
+        if rng.random() < 0.5:
+            a["force_placeholders"] = rng.choice([None, False, True] if safe_fp else [None, False])
+        if rng.random() < 0.5:
+            a["force_direct_transmission"] = rng.choice([None, False, True] if f.get("medium") in (None, "DIRECT") else [None, False])
+        if layers is not None or rng.random() < 0.5:
+            a["num_tmux_layers"] = layers if layers is not None else rng.choice([None, 0, 0, 1, 2, 3])
+        return a
+
+    def term_case(f, layers, mx, steps, send_on=-1):
+        c = {"k": "send", "cmd": {"type": "T", "f": f, "data": None}, "layers": layers, "max": mx, "via": "terminal",
+             "term": {"steps": steps, "send_on": send_on}, "stream": rng.choice(streams) if rng.random() < 0.2 else "bytes", "callback": True}
+        n, m = intended_cfg(d, c)
+        mp = max(1, ((4096 if m is None else m) - tl.get(n, tl[4]) - hdr_len(ctx, f) - 4) // 4 * 3)
+        L = rng.choice([1, mp, mp + 1, 2 * mp, 2 * mp + 1, 2 * mp + 1, 3 * mp + 5, 3 * mp + 5, rng.randrange(0, 4 * mp + 2), 4097, 10001])
+        c["cmd"]["data"] = {"len": min(L, 40000), "pat": rng.choice(pats), "seed": rng.randrange(1000)}
+        return c
+
+    for mx in [60, 100, 1000, 4000, 4096, 5000, 9000, None]:
+        for n in range(0, 4):
+            f = rng.choice(HEADERS)
+            shapes = [([], -1), ([{"how": "clone", "args": {}}], -1), ([{"how": "clone", "args": {}}], 0),
+                      ([{"how": "clone", "args": clone_args(f)}], -1),
+                      ([{"how": "clone", "args": {"num_tmux_layers": rng.randrange(0, 4)}}], -1),
+                      ([{"how": "clone", "args": clone_args(f)}, {"how": "clone", "args": clone_args(f)}], -1),
+                      ([{"how": "assign_max", "v": rng.choice(LIMITS)}, {"how": "clone", "args": clone_args(f)}], -1),
+                      ([{"how": "clone", "args": clone_args(f)}, {"how": "assign_max", "v": rng.choice(LIMITS)}], rng.choice([0, -1])),
+                      ([{"how": "assign_layers", "v": rng.randrange(0, 4)}, {"how": "clone", "args": {"force_placeholders": False}}], -1)]
+            for steps, on in shapes:
+                if quick and rng.random() < 0.35:
+                    continue
+                yield term_case(f, n, mx, steps, on)
+    for _ in range(500 if quick else 20000):
+        f = rng.choice(HEADERS)
+        steps = []
+        for _j in range(rng.randrange(0, 4)):
+            how = rng.choice(["clone", "clone", "clone", "assign_max", "assign_layers", "detect"])
+            if how == "clone":
+                steps.append({"how": "clone", "args": clone_args(f)})
+            elif how == "assign_max":
+                steps.append({"how": "assign_max", "v": rng.choice(LIMITS)})
+            elif how == "assign_layers":
+                steps.append({"how": "assign_layers", "v": rng.randrange(0, 4)})
+            else:
+                tm, te = rng.choice(ENVS)
+                steps.append({"how": "detect", "tmux": tm, "term": te})
+        nobj = 1 + sum(1 for st in steps if st["how"] == "clone")
+        yield term_case(f, rng.randrange(0, 4), rng.choice(LIMITS), steps, rng.choice([-1, -1, -1, 0, rng.randrange(0, nobj)]))
+    # (8) limits far above 4096 (and the default) with payloads of several limits: budgets around 4096 base64 characters and
+    #     around 4096 raw bytes, 5.5 kB ... 70 kB; lengths around multiples of the chunk size and around 4096 / 8192
+    for mx_ in ["b4096", "r4096", 4097, 5000, 5500, 5600, 6000, 8192, 12000, 16384, 40000, 65536, 70000, None]:
+        big = isinstance(mx_, int) and mx_ >= 40000
+        for n in (rng.sample(range(0, 4), 1 if big else 2) if quick else range(0, 5)):
+            f = rng.choice(HEADERS)
+            hl = hdr_len(ctx, f)
+            for delta in ([-1, 0, 1] if isinstance(mx_, str) else [0]):
+                mx = tl[n] + hl + 4 + 4096 + delta if mx_ == "b4096" else tl[n] + hl + 4 + 5464 + 4 * delta if mx_ == "r4096" else mx_
+                mp = ((4096 if mx is None else mx) - tl[n] - hl - 4) // 4 * 3
+                lens = [mp - 1, mp, mp + 1, 2 * mp, 2 * mp + 1, 3 * mp + 2, 5 * mp // 2, 4096, 4097, 8192, 8193, 12289]
+                if quick:
+                    lens = [mp + 1, 2 * mp + 1] + rng.sample(lens, 1 if big else 3)
+                for L in sorted(set(lens)):
+                    yield {"k": "send", "cmd": {"type": "T", "f": f, "data": {"len": L, "pat": rng.choice(pats), "seed": rng.randrange(1000)}},
+                           "layers": n, "max": mx, "stream": rng.choice(streams), "via": rng.choice(["send", "send", "terminal"]),
+                           "callback": rng.random() < 0.5}
     # (5) split() as a public method
     for f in HEADERS[:3] + HEADERS[4:6]:
         for nn in [1, 2, 3, 4, 6, 30]:
@@ -310,7 +502,12 @@ def run(ctx: Ctx):
                 "{0..7, k*chunk-1..k*chunk+2 for k=1..3, 3*chunk+5}; default limit with payloads up to 10 kB (thorough 100 kB); "
                 "every medium x more in {None,False,True}; random headers from the presence lattice; split() directly; exhaustive "
                 "lengths 0..3*chunk+5; payload as bytes / BytesIO positioned mid-stream / real file; via send() with and without "
-                "callback and via GraphicsTerminal.send_command. distinct = canonical JSON; non-trivial = error outcome or >= 2 chunks")
+                "callback and via GraphicsTerminal.send_command; terminal histories (constructed object, clone_with with every keyword "
+                "argument, clones of clones, limit / layer count assigned before and after cloning, detect_tmux, the original after "
+                "cloning) x limits {too small ... 4095, 4096, 4097 ... 9000, default} x 0..3 layers, judged against the limit and "
+                "layer count the caller configured; limits 4097 ... 70000 and budgets around 4096 base64 characters / 4096 raw bytes "
+                "with payloads of 1..3 chunks and around 4096 / 8192 bytes. "
+                "distinct = canonical JSON; non-trivial = error outcome or >= 2 chunks")
     c06.run_corpus(ctx, "C05", check_case)
     for c in cases(ctx):
         if ctx.time_left() < 0:
